@@ -2,6 +2,7 @@ import Rp2.Proofs.CliTotal
 import Rp2.Proofs.ReportTotal
 import Rp2.Proofs.FracTypes
 import Rp2.Proofs.JpTotal
+import Rp2.Proofs.OpenPosModel
 /-! C16: the generator models on the computed data of a valid run. -/
 namespace Rp2.Cli
 open Rp2
@@ -24,6 +25,12 @@ theorem genReport_full (o : Options) (period : Nat) (holderOf : Nat → String) 
   obtain ⟨rows, hrows⟩ := genFull_total holderOf period cs
   exact ⟨Report.full rows, by simp [genReport, hrows, Except.map]⟩
 
+theorem genReport_open (o : Options) (period : Nat) (holderOf : Nat → String) (cs : List Computed) :
+    ∃ rep, genReport o "open_positions" period holderOf cs = .ok rep := by
+  obtain ⟨r, hr⟩ := openPositions_total holderOf cs
+  refine ⟨Report.openPos r.1 r.2.1 (totalRows "A" r.2.2 r.1.length ++ totalRows "E" r.2.2 r.2.1.length), ?_⟩
+  simp [genReport, hr, Except.map]
+
 theorem genReport_tax (o : Options) (base : String) (period : Nat) (holderOf : Nat → String) (cs : List Computed)
     (hb : base ≠ "rp2_full_report" ∧ base ≠ "open_positions" ∧ base ≠ "tax_report_jp")
     (hc : ∀ c ∈ cs, ∃ asset acctName per allowNeg fromD toD sched ins outs intras,
@@ -38,5 +45,46 @@ theorem genReport_jp (o : Options) (period : Nat) (holderOf : Nat → String) (c
     ∃ rep, genReport o "tax_report_jp" period holderOf cs = .ok rep := by
   obtain ⟨l, hl⟩ := mapM_total (jpAsset true) cs (fun c hc => jpAsset_total true c (hv c hc))
   exact ⟨Report.jp l.flatten, by simp [genReport, hw, hl, Except.map]⟩
+
+end Rp2.Cli
+
+namespace Rp2.Cli
+open Rp2
+
+/-- every generator model succeeds on computed data of accepted input; the Japanese report additionally needs "not both a from- and a
+    to-date" (finding F8) and visible yen fees (finding F13) -/
+theorem genReport_total (o : Options) (base : String) (period : Nat) (holderOf : Nat → String) (cs : List Computed)
+    (hc : ∀ c ∈ cs, ∃ asset acctName per allowNeg fromD toD sched ins outs intras,
+      compute asset acctName per allowNeg fromD toD sched ins outs intras = .ok c ∧ ∀ o ∈ outs, ValidOutType o.typ)
+    (hjp : base = "tax_report_jp" → (o.fromD.isSome && o.toD.isSome) = false ∧
+      ∀ c ∈ cs, ∀ x ∈ c.intras, gt13 (dsub (ofUnits x.sent) (ofUnits x.recv)) 0 = true → gt13 (dmul (dsub (ofUnits x.sent) (ofUnits x.recv)) (ofUnits x.price)) 0 = true) :
+    ∃ rep, genReport o base period holderOf cs = .ok rep := by
+  by_cases h1 : base = "rp2_full_report"
+  · subst h1; exact genReport_full o period holderOf cs
+  by_cases h2 : base = "open_positions"
+  · subst h2; exact genReport_open o period holderOf cs
+  by_cases h3 : base = "tax_report_jp"
+  · subst h3; exact genReport_jp o period holderOf cs (hjp rfl).1 (hjp rfl).2
+  exact genReport_tax o base period holderOf cs ⟨h1, h2, h3⟩ hc
+
+/-- **C16 on the whole-run model, generator hypotheses discharged**: a valid invocation (no option fault, the input computes, OUT rows
+    carry disposal types) exits with status 0 and writes exactly one report per generator of the country, provided the templates exist
+    (decided over the regenerated template table for the shipped languages) and, for the Japanese report, findings F8 / F13 do not apply -/
+theorem run_complete_on_computed (o : Options) (acctName holderOf : Nat → String) (cfgAssets : List String) (sheets : List AssetIn)
+    (iso : String) (period : Nat) (defMethod : String) (methods gens : List String) (defLang : String) (sched : List (Int × Method)) (cs : List Computed)
+    (v : Valid o acctName cfgAssets sheets iso period defMethod methods gens defLang sched cs)
+    (hout : ∀ s ∈ sheets, ∀ t ∈ s.outs, ValidOutType t.typ)
+    (ht : ∀ g ∈ ordered gens, hasTemplate iso (genBase g) (o.lang.getD defLang) = true)
+    (hjp : ∀ g ∈ ordered gens, genBase g = "tax_report_jp" → (o.fromD.isSome && o.toD.isSome) = false ∧
+      ∀ c ∈ cs, ∀ x ∈ c.intras, gt13 (dsub (ofUnits x.sent) (ofUnits x.recv)) 0 = true → gt13 (dmul (dsub (ofUnits x.sent) (ofUnits x.recv)) (ofUnits x.price)) 0 = true) :
+    (run o acctName holderOf cfgAssets sheets).exit = 0 ∧
+    (run o acctName holderOf cfgAssets sheets).files.map (·.1) =
+      (ordered gens).map (fun g => fileName o.pfx (methodName (scheduleOf o defMethod)) (genBase g)) := by
+  apply run_complete o acctName holderOf cfgAssets sheets iso period defMethod methods gens defLang sched cs v
+  intro g hg
+  refine ⟨ht g hg, genReport_total o (genBase g) period holderOf cs ?_ (hjp g hg)⟩
+  intro c hc
+  obtain ⟨a, s, hs, hcomp⟩ := computeAll_mem o acctName period sched (assetNames o cfgAssets) sheets cs v.computed c hc
+  exact ⟨a, acctName, period, o.allowNeg, o.fromD, o.toD, sched, s.ins, s.outs, s.intras, hcomp, hout s hs⟩
 
 end Rp2.Cli
